@@ -633,3 +633,122 @@ LEVEL_NOTE = ('Trusted: Coq kernel + vm_compute; the harness; numpy elementwise 
               'numpy.ma.masked_* semantics as modelled. eval(): IEEE extended-real arithmetic with exact finite part, no signed zero (divisors '
               'are generated so that their zeros are +0.0); the template variable\'s dims/attrs on created variables are not modelled.')
 TECHNIQUE = 'Coq proof (elementwise refinement on a boolean domain, list induction) + vm_compute refutation witnesses + differential correspondence'
+
+
+# ----------------------------------------------------------------------------- tie T
+def translate():
+    """Re-read from the source, on every run, what Model/Arith.v transcribes and write it as coq/Gen/C06Src.v:
+    the operator table of PseudoNetCDFFile (dunder method -> symbol handed to pncbo, operand order), the statements of
+    pncbo, and the numpy.ma chain of mask() (order, function, arguments).  Props/C06.v proves src_* = model_*; an edit of
+    the source changes the term the kernel checks.  Unrecognised forms give a sentinel and a broken obligation."""
+    import ast
+    import os
+    from harness import common as C
+    out = []
+
+    def ob(anchor, ok, detail=''):
+        out.append(dict(anchor=anchor, ok=bool(ok), detail=detail))
+    un = lambda n: ast.unparse(n).strip()
+    ops, chain = [], []
+    pn = dict(expr=False, view=False, nonfin=False, coord=False, missing=False, loop=False)
+    ms = dict(tup=False, applies=False, skip=False, assign=False)
+    try:
+        t = ast.parse(open(os.path.join(C.SRC, 'PseudoNetCDF', 'core', '_files.py')).read())
+        cls = [n for n in t.body if isinstance(n, ast.ClassDef) and n.name == 'PseudoNetCDFFile'][0]
+        for f in cls.body:
+            if not (isinstance(f, ast.FunctionDef) and f.name.startswith('__') and f.name.endswith('__')):
+                continue
+            calls = [n for n in ast.walk(f) if isinstance(n, ast.Call) and un(n.func) == 'pncbo']
+            if not calls:
+                continue
+            kws = [dict((k.arg, k.value) for k in c.keywords) for c in calls]
+            good = (len(calls) == 1 and isinstance(kws[0].get('op'), ast.Constant) and isinstance(kws[0]['op'].value, str)
+                    and un(kws[0].get('ifile1', ast.Constant(0))) == 'self' and un(kws[0].get('ifile2', ast.Constant(0))) == 'lhs'
+                    and un(kws[0].get('coordkeys', ast.Constant(0))) == 'self._operator_exclude_vars'
+                    and [a.arg for a in f.args.args] == ['self', 'lhs'])
+            ops.append((f.name, kws[0]['op'].value.strip() if good else '?'))
+        ob('core/_files.py: operator methods call pncbo(op=<symbol>, ifile1=self, ifile2=lhs, coordkeys=self._operator_exclude_vars)',
+           ops and all(o != '?' for _, o in ops), 'an operator method has another form: %s' % [n for n, o in ops if o == '?'])
+        m = [f for f in cls.body if isinstance(f, ast.FunctionDef) and f.name == 'mask'][0]
+        pre = [un(n) for n in ast.walk(m) if isinstance(n, ast.Assign)]
+        ms['tup'] = 'maskdims = tuple(dims)' in pre
+        loop = [n for n in m.body if isinstance(n, ast.For) and un(n.iter) == 'self.variables.items()'][0]
+        for st in loop.body:
+            if isinstance(st, ast.If) and un(st.test) == 'vk in coordkeys and (not coords)':
+                ms['skip'] = [un(b) for b in st.body] == ['newvar[...] = vv[...]', 'continue'] and not st.orelse
+            if isinstance(st, ast.Assign) and un(st) == 'newvar[...] = vals[...]':
+                ms['assign'] = st is loop.body[-1]
+            if not isinstance(st, ast.If) or st.orelse:
+                if isinstance(st, ast.If) and st.orelse and 'verbose' not in un(st.test):
+                    chain.append(('?', '?', un(st.test)))
+                continue
+            tst = un(st.test)
+            body = [un(b) for b in st.body]
+            if tst == 'where is not None':
+                inner = st.body[0] if len(st.body) == 1 and isinstance(st.body[0], ast.If) else None
+                if inner is not None and not inner.orelse:
+                    ms['applies'] = un(inner.test) == 'maskdims == vv.dimensions or (maskdims is None and where.shape == vals.shape)'
+                    ib = [un(b) for b in inner.body]
+                    chain.append(('where', 'masked_where', 'where, vals') if ib == ['vals = np.ma.masked_where(where, vals)'] else ('where', '?', '; '.join(ib)))
+                else:
+                    chain.append(('where', '?', '; '.join(body)))
+            elif tst == 'values is not None':
+                okv = body == ['valmask = np.ma.getmaskarray(np.ma.masked_values(np.ma.getdata(vals), values))',
+                               'vals = np.ma.masked_where(valmask, vals)']
+                chain.append(('values', 'masked_values+masked_where', 'np.ma.getdata(vals), values') if okv else ('values', '?', '; '.join(body)))
+            elif tst == 'invalid' or tst.endswith(' is not None'):
+                kw = 'invalid' if tst == 'invalid' else tst[:-len(' is not None')]
+                if 'verbose' in tst:
+                    continue
+                one = st.body[0] if len(st.body) == 1 else None
+                if (isinstance(one, ast.Assign) and un(one.targets[0]) == 'vals' and isinstance(one.value, ast.Call)
+                        and un(one.value.func).startswith('np.ma.')):
+                    chain.append((kw, un(one.value.func)[len('np.ma.'):], ', '.join(un(a) for a in one.value.args)))
+                else:
+                    chain.append((kw, '?', '; '.join(body)))
+        ob('core/_files.py mask(): the numpy.ma chain read off the variable loop', chain and all(f != '?' for _, f, _ in chain),
+           'unrecognised step(s): %s' % [c for c in chain if c[1] == '?'])
+        for k, v in ms.items():
+            ob('core/_files.py mask(): statement `%s`' % dict(tup='maskdims = tuple(dims)', applies='where applicability test',
+                                                               skip='coordinate variables copied and skipped', assign='newvar[...] = vals[...] last')[k], v, 'changed')
+    except Exception as e:
+        ob('core/_files.py: parse operator methods / mask()', False, str(e)[:300])
+    try:
+        t = ast.parse(open(os.path.join(C.SRC, 'PseudoNetCDF', 'core', '_functions.py')).read())
+        f = [n for n in t.body if isinstance(n, ast.FunctionDef) and n.name == 'pncbo'][0]
+        src = un(f)
+        loop = [n for n in f.body if isinstance(n, ast.For)][0]
+        pn['loop'] = un(loop.iter) == 'ifile1.variables.keys()' and un(loop.target) == 'k'
+        top = loop.body[1] if len(loop.body) == 2 and isinstance(loop.body[1], ast.If) else None
+        if top is not None:
+            pn['coord'] = un(top.test) == 'k in coordkeys' and [un(b) for b in top.body] == ['tmpfile.copyVariable(in1var, key=k)']
+            el = top.orelse[0] if len(top.orelse) == 1 and isinstance(top.orelse[0], ast.If) else None
+            if el is not None:
+                pn['missing'] = un(el.test) == 'k not in ifile2.variables.keys()' and un(el.body[-1]) == 'tmpfile.copyVariable(in1var, key=k)'
+        pn['expr'] = "eval('in1var[...] %s in2var[...]' % op)" in src and 'in1var = ifile1.variables[k]' in src and 'in2var = ifile2.variables[k]' in src
+        pn['view'] = "outval = eval('in1var[...] %s in2var[...]' % op).view(np.ma.MaskedArray)" in src
+        pn['nonfin'] = 'outval = np.ma.masked_where(~np.isfinite(np.ma.getdata(outval)), outval)' in src
+        for k, v in pn.items():
+            ob('core/_functions.py pncbo: %s' % dict(expr='left operand, operator, right operand', view='.view(np.ma.MaskedArray)',
+                                                     nonfin='masked_where(~isfinite(getdata))', coord='coordinate variables from ifile1',
+                                                     missing='variables missing in ifile2 from ifile1', loop='loop over ifile1.variables')[k], v, 'changed')
+    except Exception as e:
+        ob('core/_functions.py: parse pncbo', False, str(e)[:300])
+    cs = lambda s: '"' + s.replace('"', '""') + '"'
+    b = lambda x: 'true' if x else 'false'
+    text = ('(* GENERATED by harness/props/c06.py translate() from src/PseudoNetCDF/core/_files.py and core/_functions.py on every run'
+            ' - do not edit. *)\nFrom PNC Require Import Base.Util Model.Arith.\nRequire Import String.\nLocal Open Scope string_scope.\n'
+            'Definition src_ops : list (string * string) :=\n  [%s].\n'
+            'Definition src_chain : list (string * (string * string)) :=\n  [%s].\n'
+            'Definition src_pncbo : pncbo_src := PSrc %s %s %s %s %s %s.\n'
+            'Definition src_mask : mask_src := MSrc %s %s %s %s.\n') % (
+        ';\n   '.join('(%s, %s)' % (cs(n), cs(o)) for n, o in ops),
+        ';\n   '.join('(%s, (%s, %s))' % (cs(k), cs(f), cs(a)) for k, f, a in chain),
+        b(pn['expr']), b(pn['view']), b(pn['nonfin']), b(pn['coord']), b(pn['missing']), b(pn['loop']),
+        b(ms['tup']), b(ms['applies']), b(ms['skip']), b(ms['assign']))
+    path = os.path.join(C.COQ, 'Gen', 'C06Src.v')
+    os.makedirs(os.path.dirname(path), exist_ok=True)
+    if not os.path.exists(path) or open(path).read() != text:
+        with open(path, 'w') as fh:
+            fh.write(text)
+    return out
